@@ -5,7 +5,7 @@
    tied by the exact correspondence of tools/props/c10.py. *)
 From Coq Require Import Reals Lra Lia List Bool Arith ZArith String.
 From PP Require Import Kern.RBool Gen.KThermNp Gen.KThermNb Gen.KThermExpr Gen.KHooksHeat
-                       C10.Spec C10.Model C10.Assembly C10.Proofs C10.Global C10.GlobalPipe.
+                       C10.Spec C10.Model C10.Assembly C10.Proofs C10.Global C10.GlobalPipe C10.Example.
 Import ListNotations.
 Open Scope R_scope.
 
@@ -194,6 +194,36 @@ Theorem global_bounds : forall tw cp amb Tn isT n pbs lo hi,
 Proof. exact global_bounds_pipeline. Qed.
 Print Assumptions global_bounds.
 
+(* the graph hypothesis [up] in checkable form: acyclic flow graph (a rank increases along every edge) and every
+   non-infeed node has an inflow => every node is downstream of an infeed node *)
+Theorem every_node_downstream_of_a_feed : forall n infeed es (rank : nat -> nat),
+  (forall e, In e es -> (e_from e < n)%nat /\ (e_to e < n)%nat) ->
+  (forall e, In e es -> (rank (e_from e) < rank (e_to e))%nat) ->
+  (forall i, (i < n)%nat -> infeed i = false -> exists e, In e es /\ e_to e = i) ->
+  forall i, (i < n)%nat -> up infeed es i.
+Proof. exact up_from_rank. Qed.
+Print Assumptions every_node_downstream_of_a_feed.
+
+(* the inflow hypothesis holds by the definition of the kernel's infeed set *)
+Theorem non_infeed_node_with_flow_has_inflow : forall tw cp amb Tn pbs i,
+  node_flow tw cp amb Tn pbs i = true -> node_infeed tw cp amb Tn pbs i = false ->
+  exists pb, In pb pbs /\ p_flow tw pb = true /\ p_tnc pb = i.
+Proof. exact noninfeed_has_inflow. Qed.
+Print Assumptions non_infeed_node_with_flow_has_inflow.
+
+(* global bounds with checkable hypotheses: every node touched by flow, flow graph acyclic *)
+Theorem global_bounds_acyclic : forall tw cp amb Tn isT n pbs lo hi (rank : nat -> nat),
+  (forall t, 0 < cp t) ->
+  fixed_point tw cp amb Tn isT n pbs ->
+  Forall (passive tw n lo hi) pbs ->
+  (forall i, (i < n)%nat -> node_infeed tw cp amb Tn pbs i = true -> lo <= Tn i <= hi) ->
+  (forall i, (i < n)%nat -> node_flow tw cp amb Tn pbs i = true) ->
+  (forall pb, In pb pbs -> (rank (p_fnc pb) < rank (p_tnc pb))%nat) ->
+  (forall i, (i < n)%nat -> lo <= Tn i <= hi) /\
+  (forall pb, In pb pbs -> lo <= p_tout pb <= hi).
+Proof. exact global_bounds_acyclic_pipeline. Qed.
+Print Assumptions global_bounds_acyclic.
+
 (* ---- 6. direction switch *)
 Theorem direction_switch_assembly : forall (ns : list (@tnode R)) bs (sel : @tbranch R -> bool),
   let bs' := map (fun b => if sel b then redeclare b else b) bs in
@@ -240,6 +270,24 @@ Proof.
   split; [split; [reflexivity|repeat constructor]|]. split; [|split; [discriminate|now left]].
   intros r Hr. unfold dim in Hr. simpl in Hr.
   do 8 (destruct r as [|r]; [vm_compute; reflexivity|]). exfalso. lia.
+Qed.
+
+(* non-vacuity over R: a concrete fixed point of the pipeline over the generated numpy kernels (C10/Example.v):
+   feeders of 370 K and 280 K (T-typed, infeed), a branch declared against the flow (m = -1, switched), mixing node
+   at 325 K, loss-free pipes, constant c_p.  It satisfies the hypotheses of branch_cooling_law, node_mixing_law,
+   infeed_rows_fix_temperature (wf; x = 0 solves), local_bounds_node_pipeline and global_bounds_acyclic *)
+Example pipeline_hypotheses_satisfiable : forall amb : R,
+  fixed_point true ex_cp amb ex_T ex_isT 4 ex_pbs /\
+  wf (sys_nodes true ex_cp amb ex_T ex_isT 4 ex_pbs) (sys_branches true ex_cp amb ex_T ex_pbs) /\
+  Forall (passive true 4 280 370) ex_pbs /\
+  (forall pb, In pb ex_pbs -> (p_fnc pb < p_tnc pb)%nat) /\
+  (forall i, (i < 4)%nat -> node_flow true ex_cp amb ex_T ex_pbs i = true) /\
+  node_infeed true ex_cp amb ex_T ex_pbs 2 = false /\ p_sw pb1 = true /\
+  mixsum true ex_cp ex_T 2 ex_pbs = 0 /\ (forall i, (i < 4)%nat -> 280 <= ex_T i <= 370).
+Proof.
+  intros amb. destruct example_passive_acyclic as (Hp & Hr & Hc). destruct (inf_ex amb) as (I0 & I1 & I2 & I3).
+  repeat split; auto using example_fixed_point, flow_ex, sw1; try apply example_wf; try apply (example_global_bounds amb); auto.
+  apply (node_mixing_law_pipeline true ex_cp amb ex_T ex_isT 4 ex_pbs 2 (example_fixed_point amb)); auto using flow_ex.
 Qed.
 
 Example global_bounds_hypotheses_satisfiable :
